@@ -94,6 +94,23 @@ def class_sum_form(den):
         if kd is False:
             return call_arg(inner, 0, 'a'), a, (p[0] if p is not None else None)          # None: the summed axis is not put back
         return None
+    if inner.op == 'mu' and inner.next is not None and is_call_to(strip_views(inner.args[0]), 'numpy.zeros', 'numpy.zeros_like'):
+        # total = zeros(...); for k in range(K): total += X[..., k, :]   - the sum over one axis written as a loop
+        nx = strip_views(inner.next)
+        if isinstance(nx, T) and nx.op in ('iop', 'binop') and nx.args[0] == 'Add':
+            for acc, x_ in ((nx.args[1], nx.args[2]), (nx.args[2], nx.args[1])):
+                x0 = strip_views(x_)
+                if strip_views(acc) is inner and isinstance(x0, T) and x0.op == 'sub' and x0.args[1].op == 'tuple':
+                    its = x0.args[1].args[0]
+                    if its and its[0].op == 'const' and its[0].args[0] is Ellipsis:
+                        pos_ = [i for i, z in enumerate(its[1:]) if strip_views(z).op == 'elem']
+                        rest_full = all(z.op == 'slice' and all(const_val(y) is None for y in z.args) for i, z in enumerate(its[1:]) if i not in pos_)
+                        if len(pos_) == 1 and rest_full:
+                            lp = strip_views(its[1:][pos_[0]]).extra
+                            it_ = strip_views(lp.iter) if lp is not None and getattr(lp, 'iter', None) is not None else None
+                            if it_ is not None and is_call_to(it_, 'builtin.range') and len(call_parts(it_)[1]) == 1:
+                                return x0.args[0], pos_[0] - len(its[1:]), (p[0] if p is not None else None)
+        return None
     if is_call_to(inner, 'numpy.einsum'):
         sub = const_val(call_arg(inner, 0))
         try:
@@ -732,6 +749,10 @@ def _operand_descriptor(t, ev, ctx, depth=0):
     av = ev.eval(t, ctx)
     if av.is_const and isinstance(av.cval, (int, float, complex)):
         return 'const'
+    if t.op == 'mu' and t.next is not None and is_call_to(strip_views(t.args[0]), 'numpy.zeros', 'numpy.zeros_like'):
+        nx = strip_views(t.next)
+        if isinstance(nx, T) and nx.op in ('iop', 'binop') and nx.args[0] == 'Add' and any(strip_views(z) is t for z in nx.args[1:] if isinstance(z, T)):
+            return 'mass'          # total = zeros(...); for k in ...: total += x[..., k, :]  - a sum-type reduction written as a loop
     m = av.meta
     if m is not None and isinstance(m, tuple) and m:
         if m[0] in ('dim', 'dims', 'len', 'ndim_of', 'shape_of'):
